@@ -63,23 +63,28 @@ def flatten(tables, model):
     spec_bad = {}     # (requirement, pat, site) -> example
     rows_total = 0
     for t in tables:
+      for pat, site in t["members"]:
         for row in t["rows"]:
             ct, body, ck, ba, to, site2, outs, bad = row
+            if to == "$self":
+                to = pat
+            if site2 == "$self":
+                site2 = site
             rows_total += 1
-            rk = (t["firstRun"], t["hasUser"], t["pat"], t["site"], t["sub"], t["spelling"], t["method"], ct, body, ck, ba)
+            rk = (t["firstRun"], t["hasUser"], pat, site, t["sub"], t["spelling"], t["method"], ct, body, ck, ba)
             key = rk + (t["reg"],)
             v = vecs.get(key)
             if v is None:
-                v = vecs[key] = {"fr": t["firstRun"], "hu": t["hasUser"], "pat": t["pat"], "site": t["site"],
+                v = vecs[key] = {"fr": t["firstRun"], "hu": t["hasUser"], "pat": pat, "site": site,
                                  "reg": t["reg"], "rk": json.dumps(rk),
                                  "sub": t["sub"], "sp": t["spelling"], "m": t["method"], "ct": ct, "b": body,
                                  "ck": ck, "ba": ba, "to": to, "exp": set(), "viol": set(),
-                                 "linux": t["site"] in linux_sites and (site2 in linux_sites),
+                                 "linux": site in linux_sites and (site2 in linux_sites),
                                  "decl": t["decl"], "chain": t["chain"]}
             v["exp"].update(outs)
             for b in bad:
                 v["viol"].add(b)
-                spec_bad.setdefault((b, t["pat"], t["site"], t["reg"]), v)
+                spec_bad.setdefault((b, pat, site, t["reg"]), v)
     out = []
     for i, (k, v) in enumerate(sorted(vecs.items(), key=lambda kv: json.dumps(kv[0]))):
         v["id"] = i
